@@ -137,7 +137,7 @@ func main() {
 			}
 			astutil.AddImport(p.Fset, f, simrtPath)
 			// drop imports that became unused through the rewrites
-			for _, imp := range []string{"github.com/oklog/ulid/v2", "maps", "golang.org/x/exp/maps", "os", "time"} {
+			for _, imp := range []string{"github.com/oklog/ulid/v2", "maps", "golang.org/x/exp/maps", "os", "time", "runtime"} {
 				if !astutil.UsesImport(f, imp) {
 					astutil.DeleteImport(p.Fset, f, imp)
 				}
@@ -528,6 +528,15 @@ func (in *instr) rewriteCall(c *astutil.Cursor, call *ast.CallExpr) {
 			in.changed = true
 		}
 		return
+	case "runtime.GOMAXPROCS", "runtime.NumCPU":
+		if in.full {
+			site := in.site("env", call.Pos(), "")
+			in.rep.ULIDSites = append(in.rep.ULIDSites, site)
+			call.Fun = &ast.SelectorExpr{X: ast.NewIdent("simrt"), Sel: ast.NewIdent(fn.Name())}
+			call.Args = append(call.Args, strLit(site))
+			in.changed = true
+		}
+		return
 	case "os.Getenv", "os.LookupEnv":
 		if in.full {
 			site := in.site("env", call.Pos(), "")
@@ -540,7 +549,7 @@ func (in *instr) rewriteCall(c *astutil.Cursor, call *ast.CallExpr) {
 	case "time.Since", "time.Sleep", "time.After", "time.Tick", "time.NewTimer", "time.NewTicker", "time.AfterFunc",
 		"github.com/oklog/ulid/v2.Now", "github.com/oklog/ulid/v2.Timestamp", "github.com/oklog/ulid/v2.DefaultEntropy",
 		"github.com/oklog/ulid/v2.MustNew", "github.com/oklog/ulid/v2.New",
-		"os.Getpid", "os.Hostname", "os.Environ", "runtime.NumGoroutine", "runtime.Gosched", "runtime.NumCPU", "runtime.GOMAXPROCS":
+		"os.Getpid", "os.Hostname", "os.Environ", "runtime.NumGoroutine", "runtime.Gosched":
 		if in.full {
 			in.rep.Uncontrolled = append(in.rep.Uncontrolled, in.site("call "+full, call.Pos(), ""))
 		}
